@@ -108,14 +108,14 @@ theorem P.modify (f : Run → Run) (h : ∀ r, (f r).s = r.s ∧ (f r).fresh = r
   Triple.modify f (fun r hr => by
     obtain ⟨a, b⟩ := h r
     exact ⟨a ▸ hr.1, b ▸ hr.2⟩)
-theorem P.attempt {m : M Unit} (h : Preserves I m) : Preserves I (attempt m) := Triple.attempt h
+theorem P.attempt {m : M Unit} (h : Preserves I m) : Preserves I (attempt m) := Triple.attempt h (fun _ h => h)
 theorem P.forIn (xs : List β) (f : β → Unit → M (ForInStep Unit)) (hf : ∀ x, Preserves I (f x ())) :
     Preserves I (forIn xs () f) := Triple.forIn xs f hf
 
 /-- a call whose effect keeps `SInv` from any state that has it -/
 theorem P.callInv (cls : Cls) (args : Args) (eff : State → State) (res : Args) (nat : State → Bool)
     (h : ∀ s, SInv s0 w fresh0 s → SInv s0 w fresh0 (eff s)) : Preserves I (Sop.Commit.call cls args eff res nat) :=
-  Triple.call cls args eff res nat (fun _ _ _ hr => ⟨h _ hr.1, hr.2⟩) (fun _ _ _ hr => hr) (fun _ _ _ hr => ⟨h _ hr.1, hr.2⟩)
+  Triple.call cls args eff res nat (fun _ _ _ hr => ⟨h _ hr.1, hr.2⟩) (fun _ _ _ _ hr => hr) (fun _ _ _ hr => ⟨h _ hr.1, hr.2⟩)
 
 /-- a call that leaves the registry and the blobs alone -/
 theorem P.callSame (cls : Cls) (args : Args) (eff : State → State) (res : Args) (nat : State → Bool)
@@ -153,7 +153,7 @@ theorem pres_regGet (ids : List UUID) :
   refine Triple.bind (Q1 := fun s r => I r ∧ ∀ h ∈ ids.filterMap s.reg, Known s0 w fresh0 h)
     (Triple.getS (fun r h => ⟨h, h.1.known_of_filterMap ids⟩)) (fun s => ?_)
   refine Triple.bind (Q1 := fun _ r => I r ∧ ∀ h ∈ ids.filterMap s.reg, Known s0 w fresh0 h) ?_ (fun _ => ?_)
-  · exact Triple.call _ _ _ _ _ (fun _ _ _ hr => ⟨⟨hr.1.1, hr.1.2⟩, hr.2⟩) (fun _ _ _ hr => hr.1) (fun _ _ _ hr => hr.1)
+  · exact Triple.call _ _ _ _ _ (fun _ _ _ hr => ⟨⟨hr.1.1, hr.1.2⟩, hr.2⟩) (fun _ _ _ _ hr => hr.1) (fun _ _ _ hr => hr.1)
   · exact Triple.pure _ (fun _ h => h)
 
 theorem pres_regGet' (ids : List UUID) : Preserves I (regGet ids) :=
